@@ -344,6 +344,17 @@ def nat_get_psi(rng):
     eps2 = np.asarray(get_epsilon(scf, Wm, **pre))
     err = float(np.abs(eps - eps2).max())
     err = max(err, float(np.max(np.diff(eps, axis=-1) < -1e-12)))
+    # mixing of ORTHONORMAL orbitals whose result has columns of norm one (in the overlap metric) but is not orthogonal, and a rescaled set
+    from eminus.dft import orth
+
+    Y = [np.asarray(y) for y in orth(at, W)]
+    Wn = []
+    for y in Y:
+        m = np.eye(y.shape[-1]) + 0.4 * rnd(rng, y.shape[-1], y.shape[-1])
+        wn = y @ m
+        nrm = np.sqrt(np.real(np.einsum("sgi,sgi->si", wn.conj(), np.stack([np.asarray(at.O(wn[sp])) for sp in range(wn.shape[0])]))))
+        Wn.append(wn / nrm[:, None, :])
+    err = max(err, float(np.abs(eps - np.asarray(get_epsilon(scf, Wn, **pre))).max()), float(np.abs(eps - np.asarray(get_epsilon(scf, [3.0 * w for w in W], **pre))).max()))
     for ik in range(at.kpts.Nk):
         for s in range(2):
             p = np.asarray(psi[ik][s])
@@ -1209,15 +1220,19 @@ def _register_bounded3():
                         doc="BOUNDED: the keyword-less call builds the density-dependent fields from its own argument (no stale state of the SCF object enters)"))
 
 
-def nat_epsilon_unocc(rng):
+def _nat_epsilon_unocc_case(rng, pick):
     """get_epsilon_unocc: ascending eigenvalues of D^H H D for D = orth_unocc(orth(W), Z); unchanged by invertible mixing of Z; never below the
     exact eigenvalues of H in the full cut-off basis (the j-th unoccupied value >= the j-th exact eigenvalue)."""
     from eminus.dft import H as Hn, get_epsilon_unocc, orth, orth_unocc
 
     # open-shell Li (different fillings per spin) on even seeds, closed-shell He treated unrestricted with DIFFERENT orbitals per spin channel
     # (identical fillings, the channels still are separate eigenvalue problems) on odd ones
-    if int(rng.integers(2)) == 0:
+    if pick == 0:
         scf, at = _native_scf(Nspin=2, xc="lda,pw", atom="Li")
+        W = scf.W
+    elif pick == 2:
+        # H atom: the second spin channel holds NO occupied state (its unoccupied orbitals only have to be orthonormal among themselves)
+        scf, at = _native_scf(Nspin=2, xc="lda,pw", atom="H")
         W = scf.W
     else:
         scf, at = _native_scf(Nspin=2, xc="lda,pw", atom="He")
@@ -1229,6 +1244,12 @@ def nat_epsilon_unocc(rng):
     Zm = [z @ (np.eye(3) + 0.4 * rnd(rng, 3, 3)) for z in Z]
     eps2 = np.asarray(get_epsilon_unocc(scf, W, Zm, **pre))
     err = float(np.abs(eps - eps2).max())
+    err = max(err, float(np.abs(eps - np.asarray(get_epsilon_unocc(scf, W, [0.1 * z for z in Zm], **pre))).max()))
+    Dm = orth_unocc(at, orth(at, W), Zm)
+    for ik in range(at.kpts.Nk):
+        for sp in range(2):
+            d = np.asarray(Dm[ik][sp])
+            err = max(err, float(np.abs(d.conj().T @ np.asarray(at.O(d)) - np.eye(d.shape[-1])).max()))
     err = max(err, float(np.max(np.diff(eps, axis=-1) < -1e-12)))
     D = orth_unocc(at, orth(at, W), Z)
     for ik in range(at.kpts.Nk):
@@ -1244,9 +1265,14 @@ def nat_epsilon_unocc(rng):
     return err
 
 
+def nat_epsilon_unocc(rng):
+    """All three systems: open-shell Li, closed-shell He with different orbitals per channel, H with an empty spin channel."""
+    return max(_nat_epsilon_unocc_case(rng, pick) for pick in (0, 1, 2))
+
+
 register(Obligation(name="C05.get_epsilon_unocc.ascending_subspace_eigenvalues", prop="C05", engine="B", bounded=True,
                     functions=["eminus.dft:get_epsilon_unocc", "eminus.dft:orth_unocc", "eminus.dft:H"],
-                    run=BoundedNative(nat_epsilon_unocc, 4, tol=1e-8, what="eigenvalues of the unoccupied subspace: ascending, those of D^H H D, unchanged by mixing Z, not below the exact ones (Li, unrestricted, 2 k-points)"),
+                    run=BoundedNative(nat_epsilon_unocc, 2, tol=1e-8, what="eigenvalues of the unoccupied subspace: ascending, those of D^H H D, unchanged by mixing / scaling Z, not below the exact ones; D orthonormal (Li / He / H with an empty channel, unrestricted, 2 k-points)"),
                     budget={"quick": 200, "thorough": 600},
                     doc="BOUNDED: get_epsilon_unocc returns the ascending eigenvalues of the subspace Hamiltonian of the orthonormalised unoccupied orbitals"))
 
